@@ -145,8 +145,10 @@ def specKvVerdict (t : Transition) : String :=
 def memFn (s : State) : Int :=
   (s.dbs.map fun (_, d) => (d.store.map fun (k, e) => e.getMem + keyMem k).sum).sum
 
+/-- C19 per transition: the command moves the counter by what the dataset's accounted size moves, or it lands on the
+    exact figure of the dataset it leaves (FLUSHALL resets the counter: an earlier drift is then gone — the property itself) -/
 def memVerdict (t : Transition) : String :=
-  if t.post.mem - t.pre.mem == memFn t.post - memFn t.pre then "adm" else "rej"
+  if t.post.mem - t.pre.mem == memFn t.post - memFn t.pre || t.post.mem == memFn t.post then "adm" else "rej"
 
 def dbOrEmpty (s : State) (j : Nat) : Db := canonDb (s.db j)
 
